@@ -45,10 +45,21 @@ def doc_prop(pid, quick, thorough, sample_quick, sample_thorough, rule, nontrivi
 
 PROPS = {}
 
+def wraps_c02(case, ctx):
+    """C02: the generated forest also sits in a list item, a quote or a layout-table cell (text blocks there are
+    rendered without a wrapper of their own)"""
+    ws = ["none", "none", "li", "bq", "td"]
+    if ctx["tier"] == "thorough":
+        return [dict(case, p={"wrap": w}) for w in ("none", "li", "bq")]
+    w = ws[(zlib.crc32(json.dumps(case["nodes"], sort_keys=True).encode()) + ctx["seed"]) % len(ws)]
+    return [dict(case, p={"wrap": w})]
+
+
 PROPS["C02"] = doc_prop(
     "C02",
-    quick=[bfs("MC_C02", "C02_quick"), bfs("MC_C03", "C03_quick"), sim("MC_C02", "C02_sim", 400, 14)],
-    thorough=[bfs("MC_C02", "C02_thorough"), bfs("MC_C03", "C03_thorough"), sim("MC_C02", "C02_sim", 6000, 22)],
+    quick=[bfs("MC_C02", "C02_quick"), bfs("MC_C02", "C02_flat"), bfs("MC_C03", "C03_quick"), sim("MC_C02", "C02_sim", 400, 14)],
+    thorough=[bfs("MC_C02", "C02_thorough"), bfs("MC_C02", "C02_flat"), bfs("MC_C03", "C03_thorough"), sim("MC_C02", "C02_sim", 6000, 22)],
+    expand=wraps_c02,
     sample_quick=20000, sample_thorough=700000,
     rule="cases = abstract documents enumerated by TLC (spec/gen/MC_C02 BFS to the bound, all paragraph child sequences of spec/gen/MC_C03, then -simulate); "
          "non-trivial = the real run retained some source words and dropped others",
